@@ -1,11 +1,10 @@
 (* C09 (after the fix of K11): the usage that gets matched is the first matching one of the
    SORTED expanded usages, so it cannot depend on the order in which the hash set yields them. *)
 From Coq Require Import List String Ascii Bool NArith Lia Permutation.
+From RashV Require Import Order.
 Import ListNotations.
 Open Scope list_scope.
 
-(* descending byte-wise order on strings, as `sort_by(|a, b| b.cmp(a))` *)
-Definition geb (a b : string) : bool := String.leb b a.
 
 Lemma ascii_compare_trans_lt a b c :
   Ascii.compare a b = Lt -> Ascii.compare b c = Lt -> Ascii.compare a c = Lt.
@@ -38,14 +37,6 @@ Proof. unfold geb. intros H1 H2. now apply String.leb_antisym. Qed.
 Lemma geb_trans a b c : geb a b = true -> geb b c = true -> geb a c = true.
 Proof. unfold geb. intros H1 H2. eapply leb_trans; eauto. Qed.
 
-Fixpoint insert (x : string) (l : list string) : list string :=
-  match l with
-  | [] => [x]
-  | y :: r => if geb x y then x :: y :: r else y :: insert x r
-  end.
-Fixpoint sort (l : list string) : list string :=
-  match l with [] => [] | x :: r => insert x (sort r) end.
-
 Lemma geb_false a b : geb a b = false -> geb b a = true.
 Proof. intro H. destruct (geb_total a b); congruence. Qed.
 
@@ -74,10 +65,6 @@ Proof.
   - apply insert_comm.
   - congruence.
 Qed.
-
-(* the matching stage: first sorted usage that matches *)
-Definition choose (matches : string -> bool) (usages : list string) : option string :=
-  find matches (sort usages).
 
 Theorem choose_order_independent matches us us' :
   Permutation us us' -> choose matches us = choose matches us'.
